@@ -137,6 +137,40 @@ def iter_chain(n):
     return n, chain
 
 
+def push_loop_collection(fn, ctx, var):
+    """A local built as `let mut v = Vec::new()/with_capacity(..); for e in BASE { v.push(ELEM) }` (nothing else touches it, the loop
+    body has no early exit): the same collection as `BASE.map(|e| ELEM).collect()`.  Returns (base_term, elem_term) or None."""
+    if var["k"] != "var":
+        return None
+    vid = var["id"]
+    inits = [n["init"] for n in fn.nodes() if n["k"] in ("slet", "let") and n["pat"].get("k") == "pbind" and n["pat"].get("id") == vid and "init" in n]
+    if len(inits) != 1 or inits[0]["k"] != "call" or not inits[0].get("fn", "").startswith("alloc::vec::Vec") \
+            or inits[0]["fn"].rsplit("::", 1)[-1] not in ("new", "with_capacity"):
+        return None
+    uses = [n for n in fn.nodes() if n["k"] == "mcall" and n["recv"]["k"] in ("var", "ref") and
+            (n["recv"] if n["recv"]["k"] == "var" else n["recv"]["e"]).get("id") == vid]
+    muts = [n for n in uses if n["name"] not in ("len", "is_empty", "iter", "capacity")]
+    assigns = [n for n in fn.nodes() if n["k"] in ("assign", "assignop") and n["l"]["k"] == "var" and n["l"]["id"] == vid]
+    if len(muts) != 1 or muts[0]["name"] != "push" or assigns:
+        return None
+    push = muts[0]
+    loops = [a for a in fn.ancestors(push) if a["k"] in ("for", "while", "loop")]
+    if len(loops) != 1 or loops[0]["k"] != "for":
+        return None
+    lp = loops[0]
+    if any(x["k"] in ("break", "continue", "ret", "try") for x in ir.walk(lp["body"], into_closures=False)):
+        return None
+    # the push is an unconditional statement of the loop body
+    body = lp["body"]
+    ss = body.get("stmts", []) + ([body["expr"]] if "expr" in body else []) if body["k"] == "block" else [body]
+    if not any(s_ is push for s_ in ss):
+        return None
+    base, chain = iter_chain(lp["iter"])
+    if any(c[0] not in ("iter", "iter_mut", "into_iter") for c in chain):
+        return None
+    return ctx.term(base), ctx.term(push["args"][0])
+
+
 def closure_projection(ctx, clo):
     """For `|pat| expr` return the canonical term of the body relative to the parameter: e.g. `λ0.2`."""
     body = clo["body"]
